@@ -124,7 +124,7 @@ fn encode_arg(o: &mut Out, a: &RArg) {
     match a.ty.kind {
         RKind::Bool => {
             if a.ty.vari {
-                o.u16(name.len() as u16 + 1, Role::LenPrefix);
+                o.u16((name.len() + 1) as u16, Role::LenPrefix);
                 o.text0(name);
             }
             let v = if let RVal::Bool(b) = a.val { b } else { 0 };
@@ -132,9 +132,9 @@ fn encode_arg(o: &mut Out, a: &RArg) {
         }
         RKind::Str => {
             let s = if let RVal::Str(s) = &a.val { s.as_str() } else { "" };
-            o.u16(s.len() as u16 + 1, Role::LenPrefix);
+            o.u16((s.len() + 1) as u16, Role::LenPrefix);
             if a.ty.vari {
-                o.u16(name.len() as u16 + 1, Role::LenPrefix);
+                o.u16((name.len() + 1) as u16, Role::LenPrefix);
                 o.text0(name);
             }
             o.text0(s);
@@ -144,15 +144,15 @@ fn encode_arg(o: &mut Out, a: &RArg) {
             let d = if let RVal::Raw(d) = &a.val { d } else { &empty };
             o.u16(d.len() as u16, Role::LenPrefix);
             if a.ty.vari {
-                o.u16(name.len() as u16 + 1, Role::LenPrefix);
+                o.u16((name.len() + 1) as u16, Role::LenPrefix);
                 o.text0(name);
             }
             o.raw(d, Role::Blob);
         }
         k => {
             if a.ty.vari {
-                o.u16(name.len() as u16 + 1, Role::LenPrefix);
-                o.u16(unit.len() as u16 + 1, Role::LenPrefix);
+                o.u16((name.len() + 1) as u16, Role::LenPrefix);
+                o.u16((unit.len() + 1) as u16, Role::LenPrefix);
                 o.text0(name);
                 o.text0(unit);
             }
